@@ -158,6 +158,7 @@ type c16Hs struct {
 	stage     string // verify | route | send | done
 	shown     *tls.Certificate
 	ch        chan<- net.Conn
+	owner     int // the acceptor registered for the secret when the channel was fetched
 }
 
 // c16Controlled runs one generated macro-step sequence on a real Listener (no network): acceptors are
@@ -169,7 +170,6 @@ func c16Controlled(out *vlib.Out, r *vlib.Rand, nops int) {
 	accs := map[int]*c16Acc{}
 	hss := map[int]*c16Hs{}
 	holder := map[int]int{}   // secret -> live acceptor (ground truth)
-	buffered := map[int]int{} // acceptor -> connection in its channel
 	var mops, outs []string
 	nextA, nextH := 0, 0
 	line := func() string { return "dtls|" + strings.Join(mops, ";") }
@@ -206,6 +206,7 @@ func c16Controlled(out *vlib.Out, r *vlib.Rand, nops int) {
 	}
 	for step := 0; step < nops; step++ {
 		var waiting, routable, verifiable, sendable []int
+
 		for a, x := range accs {
 			if x.state == "waiting" {
 				waiting = append(waiting, a)
@@ -313,7 +314,7 @@ func c16Controlled(out *vlib.Out, r *vlib.Rand, nops int) {
 				hs.stage = "done"
 				record(fmt.Sprintf("V%d", h), "drop")
 			}
-		case x < 15 && len(routable) > 0:
+		case x < 14 && len(routable) > 0:
 			h := routable[r.Intn(len(routable))]
 			hs := hss[h]
 			ch, err := l.chFromID(c16CertsOf(hs.rnd).rnd)
@@ -322,17 +323,48 @@ func c16Controlled(out *vlib.Out, r *vlib.Rand, nops int) {
 				record(fmt.Sprintf("R%d", h), "drop")
 				break
 			}
-			select {
-			case ch <- &c16FakeConn{h: h}:
-				hs.stage = "done"
-				if a, ok := holder[hs.rnd]; ok {
-					buffered[a] = h
-				}
-				record(fmt.Sprintf("R%d", h), "sent")
-			default:
-				hs.stage, hs.ch = "send", ch
-				record(fmt.Sprintf("R%d", h), "full")
+			hs.stage, hs.ch, hs.owner = "send", ch, -1
+			if a, ok := holder[hs.rnd]; ok {
+				hs.owner = a
 			}
+			record(fmt.Sprintf("R%d", h), "ch")
+		case x < 16 && len(sendable) > 0 && r.Chance(4, 5):
+			h := sendable[r.Intn(len(sendable))]
+			hs := hss[h]
+			select {
+			case hs.ch <- &c16FakeConn{h: h}:
+			default:
+				record(fmt.Sprintf("S%d", h), "full")
+				continue
+			}
+			hs.stage = "done"
+			acc := accs[hs.owner]
+			if acc == nil || acc.state != "waiting" {
+				// the acceptor that owned the channel has returned: nobody will ever read this connection
+				out.Count("listener:connection-sent-to-returned-acceptor")
+				record(fmt.Sprintf("S%d", h), "sent:lost")
+				break
+			}
+			res, ok := waitRes(acc, 20*time.Second)
+			if !ok {
+				record(fmt.Sprintf("S%d", h), "hang")
+				fail("C16:delivered-connection-not-accepted", fmt.Sprintf("a connection was sent on acceptor %d's channel but Accept did not return", hs.owner))
+				return
+			}
+			acc.state = "done"
+			delete(holder, acc.id)
+			got := -1
+			if fc, ok := res.conn.(*c16FakeConn); ok && res.err == nil {
+				got = fc.h
+			}
+			record(fmt.Sprintf("S%d", h), fmt.Sprintf("sent:conn:%d", got))
+			out.Checked()
+			if got != h {
+				fail("C16:cross-delivery", fmt.Sprintf("acceptor %d was sent connection %d but returned %d (%v)", hs.owner, h, got, res.err))
+			} else if hs.rnd != acc.id || hs.cert != acc.id {
+				fail("C16:cross-delivery", fmt.Sprintf("acceptor %d waits for secret %d but received a connection with hello-random of secret %d and certificate of secret %d", hs.owner, acc.id, hs.rnd, hs.cert))
+			}
+			checkFree(hs.owner, acc.id)
 		case x < 16 && len(sendable) > 0:
 			h := sendable[r.Intn(len(sendable))]
 			hss[h].stage = "done"
@@ -340,55 +372,29 @@ func c16Controlled(out *vlib.Out, r *vlib.Rand, nops int) {
 		case x < 19 && len(waiting) > 0:
 			a := waiting[r.Intn(len(waiting))]
 			acc := accs[a]
-			h, has := buffered[a]
-			if !has {
-				if r.Chance(1, 3) {
-					// nothing was sent to it: it must keep waiting
-					if res, ok := waitRes(acc, 15*time.Millisecond); ok {
-						record(fmt.Sprintf("W%d", a), "returned")
-						fail("C16:accept-returned-without-connection", fmt.Sprintf("acceptor %d returned (%v, %v) although nothing was sent to it", a, res.conn, res.err))
-						return
-					}
-					record(fmt.Sprintf("W%d", a), "blocked")
-					break
-				}
-				// cancel it
-				acc.cancel()
-				res, ok := waitRes(acc, 20*time.Second)
-				if !ok {
-					record(fmt.Sprintf("X%d", a), "hang")
-					fail("C16:cancel-does-not-return", fmt.Sprintf("acceptor %d did not return after its context was cancelled", a))
+			if r.Chance(1, 3) {
+				// nothing was sent to it: it must keep waiting
+				if res, ok := waitRes(acc, 15*time.Millisecond); ok {
+					record(fmt.Sprintf("W%d", a), "returned")
+					fail("C16:accept-returned-without-connection", fmt.Sprintf("acceptor %d returned (%v, %v) although nothing was sent to it", a, res.conn, res.err))
 					return
 				}
-				acc.state = "done"
-				delete(holder, acc.id)
-				if res.err == nil {
-					record(fmt.Sprintf("X%d", a), "conn?")
-				} else {
-					record(fmt.Sprintf("X%d", a), "cancelled")
-				}
-				checkFree(a, acc.id)
+				record(fmt.Sprintf("W%d", a), "blocked")
 				break
 			}
+			acc.cancel()
 			res, ok := waitRes(acc, 20*time.Second)
 			if !ok {
-				record(fmt.Sprintf("W%d", a), "hang")
-				fail("C16:delivered-connection-not-accepted", fmt.Sprintf("a connection was sent on acceptor %d's channel but Accept did not return", a))
+				record(fmt.Sprintf("X%d", a), "hang")
+				fail("C16:cancel-does-not-return", fmt.Sprintf("acceptor %d did not return after its context was cancelled", a))
 				return
 			}
 			acc.state = "done"
 			delete(holder, acc.id)
-			delete(buffered, a)
-			got := -1
-			if fc, ok := res.conn.(*c16FakeConn); ok && res.err == nil {
-				got = fc.h
-			}
-			record(fmt.Sprintf("W%d", a), fmt.Sprintf("conn:%d", got))
-			out.Checked()
-			if got != h || got < 0 {
-				fail("C16:cross-delivery", fmt.Sprintf("acceptor %d was sent connection %d but returned %d (%v)", a, h, got, res.err))
-			} else if hs := hss[got]; hs.rnd != acc.id || hs.cert != acc.id {
-				fail("C16:cross-delivery", fmt.Sprintf("acceptor %d waits for secret %d but received a connection with hello-random of secret %d and certificate of secret %d", a, acc.id, hs.rnd, hs.cert))
+			if res.err == nil {
+				record(fmt.Sprintf("X%d", a), "conn?")
+			} else {
+				record(fmt.Sprintf("X%d", a), "cancelled")
 			}
 			checkFree(a, acc.id)
 		default:
